@@ -689,7 +689,8 @@ fn ent_op(g: &mut Gen, r: &dyn Runner, tgt: &str, absent_pct: u64) -> String {
         let kid = g.id();
         format!("{} rustc_entry {} {} {}", tgt, k, kid, ent_rustc_chain(g))
     } else if x < 84 {
-        format!("{} extend {}", tgt, ent_items(g, r, tgt, 6))
+        let form = *g.rng.pick(&["extend", "extend", "extend_r0", "extend_r1"]);
+        format!("{} {} {}", tgt, form, ent_items(g, r, tgt, 6))
     } else if x < 86 {
         format!("{} from_iter {}", tgt, ent_items(g, r, tgt, 8))
     } else if x < 91 {
